@@ -33,7 +33,7 @@ class FuncError(ValueError):
     pass
 
 
-def run_prog(shape, pauses, dur, fails, fp, *, timeout=T, shutdown_at=None, via_deco=False):
+def run_prog(shape, pauses, dur, fails, fp, *, timeout=T, shutdown_at=None, via_deco=False, form=None):
     """Returns dict with inv (invocations), subs, waits, flags, outcome."""
     R = {'inv': [], 'subs': [], 'waits': [], 'overlap': False, 'hung_waits': 0, 'prod_active': 0}
     pz = list(pauses)
@@ -65,8 +65,11 @@ def run_prog(shape, pauses, dur, fails, fp, *, timeout=T, shutdown_at=None, via_
                 raise FuncError(n)
             rec['ok'] = True
         R['running'] = running
-        if via_deco:
+        fm = form or ('options' if via_deco else 'class')
+        if fm == 'options':
             b = M.buffer_until_timeout(timeout=timeout)(f)
+        elif fm == 'direct':
+            b = M.buffer_until_timeout(f, timeout=timeout)
         else:
             b = M.BufferAsyncCalls(f, timeout=timeout)
         nxt = [0]
@@ -383,7 +386,7 @@ def _cell(prop, shape, tier, tmo, dmax=25, pmax=25, fp=None, weight=2, deco=Fals
 QUICK_SHAPES = {
     'C03': {'cpc': 0, 'cpcw': 0, 'mpc': 0, 'ipc': 0, 'apc': 2, 'cpa': 2, 'epc': 0},
     'C07': {'cw': 0, 'cW': 0, 'cpw': 0, 'cpW': 0, 'cpcw': 0, 'cbpw': 0, 'cBpc': 0, 'aw': 0, 'gW': 0, 'ew': 0, 'cpbpB': 2, 'ipw': 0},
-    'C08': {'cpc': 0, 'cpcpc': 3, 'mpc': 0, 'cpm': 0, 'cpW': 0, 'ce': 0, 'cpcW': 0},
+    'C08': {'e': 0, 'epe': 0, 'cpc': 0, 'cpcpc': 3, 'mpc': 0, 'cpm': 0, 'cpW': 0, 'ce': 0, 'cpcW': 0},
 }
 THOROUGH_SHAPES = {
     'C03': ['gpc', 'cpgw', 'cpcpc', 'cpcpcw', 'mpipc', 'gpapc', 'cpgpcw', 'ipgpa', 'cpcpWpc', 'apcpb', 'cpcpcpc'],
